@@ -484,6 +484,18 @@ def c01_5(R):
                    where=s.where(), instance="slot-write-guards")
         else:
             R.ok("slot-write-guards", b.name, "!is_full && index < data.len() (same index) && slot is default")
+    # what the two predicates of the reassembly queue mean
+    for fn, a_, b_ in (("is_full", "OutOfOrderQueue.len", "OutOfOrderQueue.capacity"), ("is_empty", "OutOfOrderQueue.filled_front", "OutOfOrderQueue.len")):
+        pb = R.body("stream_rx::OutOfOrderQueue::" + fn)
+        okp = False
+        for s_ in pb.stmts():
+            if s_.place.is_local and s_.place.local == 0 and s_.rv.kind == "bin" and s_.rv.op == "Eq":
+                fs = {trace(pb, o).last_field for o in s_.rv.ops}
+                okp = fs == {a_, b_}
+        if okp:
+            R.ok("ooq-predicates", fn, "%s == %s" % (a_.split(".")[1], b_.split(".")[1]))
+        else:
+            R.fail([pb.name, "predicate-shape"], "OutOfOrderQueue::%s is no longer `%s == %s`: the guards built on it (slot writes, SACK emission, forced ACKs) test something else" % (fn, a_.split(".")[1], b_.split(".")[1]), where=pb.where(), instance="ooq-predicates")
     # caller
     pim = R.body("stream_dispatch::VirtualSocket::process_incoming_message")
     calls = [t for t in pim.calls() if call_matches(t, ("stream_rx::UserRx::add_remove",))]
